@@ -16,6 +16,11 @@ import time
 
 import vlib
 
+sys_path_here = os.path.dirname(os.path.abspath(__file__))
+import sys
+sys.path.insert(0, sys_path_here)
+import factgen  # noqa: E402
+
 NEEDED = ["multidim_index_sequence2_flatten__v2ul", "multidim_index_sequence2_reshape__ul",
           "multidim_index_sequence3_flatten__v3ul", "multidim_index_sequence3_reshape__ul",
           "multidim_index_sequence2_total_indices__", "multidim_index_sequence3_total_indices__",
@@ -59,6 +64,45 @@ def regenerate(ctx):
     for n in missing:
         ctx.broken.append("generated definition %s is missing (outside the translator's subset now)" % n)
     return not missing
+
+
+def regenerate_facts(ctx):
+    """source-derived fact table: bodies of the Array3D classes / for_each / getValueRange / iterator increments as typed
+    expression trees (props/C17/factgen.py over the clang JSON AST of the working tree) -> coq/C17/gen/FactsArr.v"""
+    gen_v = os.path.join(ctx.coqdir, "gen", "FactsArr.v")
+    js = os.path.join(ctx.build, "facts.json")
+    try:
+        factgen.main(["--repo", ctx.repo, "--out", gen_v, "--json", js, "--work", os.path.join(ctx.build, "ast"), "--inc", ctx.include_dir()])
+        notes = json.load(open(js)).get("notes", [])
+    except Exception as ex:         # clang failed / unexpected AST: fail closed
+        notes = ["fact extraction failed: %s" % str(ex)[-600:]]
+        old = open(gen_v).read() if os.path.exists(gen_v) else None
+        txt = factgen.failing_text()
+        if old != txt:
+            open(gen_v, "w").write(txt)
+        ctx.broken.append("fact extractor props/C17/factgen.py failed: %s" % str(ex)[-300:])
+    ctx.cov["fact_extractor_notes"] = notes
+    for n in notes[:8]:
+        ctx.log("factgen: " + n)
+
+
+def first_failing_lemma(ctx):
+    """name the first lemma whose proof no longer checks (from the coqc error location)"""
+    out = []
+    for m in re.finditer(r'File "\./([^"]+\.v)", line (\d+)', getattr(ctx, "coq_log", "")):
+        f, ln = m.group(1), int(m.group(2))
+        try:
+            lines = open(os.path.join(ctx.coqdir, f)).read().split("\n")[:ln]
+        except OSError:
+            continue
+        name = None
+        for l in lines:
+            mm = re.match(r"^\s*(?:Lemma|Theorem|Example|Definition)\s+([\w']+)", l)
+            if mm:
+                name = mm.group(1)
+        if name and (f, name) not in out:
+            out.append((f, name))
+    return out
 
 
 # ------------------------------------------------------------------ python oracle (independent, big integers)
@@ -340,6 +384,10 @@ def gen_cases(ctx, extra):
     for d in itertools.product(range(1, 6), repeat=3):
         for _ in range(ctx.pick(6, 40)):
             add(B, "SH %d %d %d %d %d %d" % (d + tuple(r.randint(-5, 5) for _ in range(3))))
+    # ---- repeater (not in the property text: compared with the model only)
+    for d in [(2, 3, 1), (1, 1, 1), (3, 2, 2)]:
+        for rs in itertools.product(range(1, 5), repeat=3):
+            add(B, "RP %d %d %d %d %d %d" % (d + rs))
     # ---- sub-box adaptor: all clip boxes of 4x4x4 (incl. empty), random ones of other extents
     ax = [(l, h) for l in range(5) for h in range(l, 5)]
     for bx, by, bz in itertools.product(ax, repeat=3):
@@ -421,7 +469,13 @@ def replay(ctx, exes):
 def run(ctx):
     t0 = time.time()
     regenerate(ctx)
-    thm = ctx.coq_check(("Properties.v",), timeout=600)
+    regenerate_facts(ctx)
+    thm = ctx.coq_check(("Properties.v", "PropertiesFacts.v"), timeout=600)
+    failing = first_failing_lemma(ctx)
+    if failing:
+        ctx.cov["first_failing_lemmas"] = ["%s: %s" % fl for fl in failing]
+        ctx.log("first failing lemma(s): " + "; ".join("%s in %s" % (n, f) for f, n in failing))
+        ctx.broken.insert(0, "first failing lemma: " + "; ".join("%s (%s)" % (n, f) for f, n in failing))
     proofs_ok = all(thm.values()) and bool(thm)
     def fresh():
         """the .vo files the extraction needs exist and are current (a failed build leaves stale ones behind)"""
@@ -548,14 +602,19 @@ def run(ctx):
                              "loops_arrays": "ASan+UBSan"}
     ctx.trusted += ["translator tools/cxx2coq/cxx2coq.py (clang++ -std=c++11 -DNDEBUG JSON AST of tools/cxx2coq/inst/idx.cpp -> Gallina over "
                     "coq/Common/CxxSem.v), validated on every run: machine reading of the generated definitions == real C++ on all arithmetic cases",
+                    "fact extractor props/C17/factgen.py + tools/sxast/sxast.py over the clang JSON AST (-DNDEBUG) of Array3D.h / for_each.h / "
+                    "multidim_index_sequence.h / range.h: typed expression trees and statement shapes -> coq/C17/gen/FactsArr.v; meaning in "
+                    "coq/C17/FactsDefs.v. Assumed leaves: vec_t<int,3> + - % min max are component-wise at int (property C04); std::min/std::max; "
+                    "shared_ptr/vector element access; the instantiations <int> (and <int,float> for the accessor) stand for every value type",
                     "numeric interpretations IZ/MZ (coq/Common/CxxSem.v) and the overflow-checked OZ (coq/C17/Checked.v)",
                     "hand model coq/C17/Model.v of for_each, iterator traversal, prefix operator++, ActualArray3D, the adaptors and getValueRange "
                     "(tied by the differential run, not by generation)",
                     "correspondence harness harness/C17/harness.cpp, generators and python oracle in props/C17/check.py (g++ -O1; -fwrapv / ASan+UBSan)"]
     ctx.assumptions += ["int is 32 bits and size_t 64 bits (LP64); size_t -> int narrowing is modular (implementation-defined; g++)",
                         "cell values are ints; new T[n] cells are indeterminate until clear()/set() (the model's filler is never observed)",
-                        "Array3DRepeater, loadRAW/mmapRAW and ActualArray3D's allocation-failure path are not modelled",
+                        "loadRAW/mmapRAW and ActualArray3D's allocation-failure path are not modelled; Array3DRepeater is modelled as coded (mirror-repeat with "
+                        "period repeatedSize; not part of the property text, so a difference is a correspondence break, not a violation)",
                         "theorems about division assume positive extents (C++ division by zero is undefined)"]
     ctx.cov["check_wall_s"] = round(time.time() - t0, 1)
     if ctx.thorough():
-        ctx.coq_thorough_chk(["C17.Properties"])
+        ctx.coq_thorough_chk(["C17.Properties", "C17.PropertiesFacts"])
